@@ -41,6 +41,8 @@ def cases(tier, seed):
             settings = rng.sample(set3, 3)
             if i % 5 == 0 and (2, (4, 4, -1)) not in settings:
                 settings[0] = (2, (4, 4, -1))
+        if geom in ('3d', '2d') and i % 5 == 2:
+            src['fmt'] = [3, 2, 8][(i // 5) % 3]          # integer sample formats: the hash is still over the float32 samples
         out.append({'id': '%s:%d' % (geom, i), 'src': src, 'settings': [[r, list(b)] for r, b in settings],
                     'detection': ['heuristic', 'strip', 'thorough', 'exhaustive'][(i // 6) % 4] if geom in ('3d', '2d') else 'heuristic',
                     'where': ['first', 'last', 'partial', 'random'][i % 4], 'cost': 2})
@@ -83,7 +85,7 @@ def cases(tier, seed):
     # generated ZGY sources through ZgyConverter: hash of the float32 samples pyzgy reads
     for j in range(8 if tier == 'quick' else 48):
         nI, nX = rng.choice([(5, 5), (9, 7), (8, 8), (4, 17), (6, 10), (17, 18)])
-        out.append({'id': 'zgy:%d' % j, 'src': conv.zgy_desc(rng, (nI, nX, rng.choice([3, 10, 31, 64]))), 'settings': [[r, list(b)] for r, b in rng.sample(set3, 3)],
+        out.append({'id': 'zgy:%d' % j, 'src': conv.zgy_desc(rng, (nI, nX, rng.choice([3, 10, 31, 64])), valkind=rng.choice(['smooth', 'noise', 'ramp'])), 'settings': [[r, list(b)] for r, b in rng.sample(set3, 3)],
                     'where': ['first', 'last', 'partial', 'random'][j % 4], 'cost': 3})
     return out
 
@@ -99,17 +101,48 @@ def run_case(case, ctx):
     sc = ctx['scratch']
     geom = case['src']['geom']
     bad, hashes, n = [], {}, 0
+    strata_reuse = set()
+
+    # one converter object serving several run() calls (different settings) is ordinary use of the API: the hash of each file
+    # must not depend on what the object converted before
+    import zlib
+    reuse = zlib.crc32(case['id'].encode()) % 2 == 1
+    shared = {}
+
+    def converter_for(route, src):
+        from seismic_zfp.conversion import NumpyConverter, SegyConverter, ZgyConverter
+        if route not in shared:
+            if route == 'numpy':
+                shared[route] = NumpyConverter(src['data'], ilines=src['ilines'], xlines=src['xlines'], samples=src['samples'], trace_headers={})
+            elif route == 'zgy':
+                shared[route] = ZgyConverter(src['path'])
+            else:
+                shared[route] = SegyConverter(src['path'])
+        return shared[route]
 
     def convert_all(src, tag):
         nonlocal n
         got = {}
+        shared.clear()
         for rate, bs in case['settings']:
             routes = ['numpy'] if geom == 'numpy' else ['zgy'] if geom == 'zgy' else (['segyio', 'iops'] if geom == '3d' else ['segyio'])
+            if case['src'].get('fmt') in (2, 3, 8):
+                routes = ['segyio']        # the reduced-I/O reader refuses integer formats by design
             if case.get('cli') and rate >= 1:
                 routes = routes + ['cli']
             for route in routes:
                 out = sc.file('o-%s-%s-%s.sgz' % (tag, rate, route))
-                if route == 'numpy':
+                if reuse and route != 'cli':
+                    c_ = converter_for(route, src)
+                    with env.quiet():
+                        if route == 'numpy':
+                            c_.run(out, bits_per_voxel=rate, blockshape=tuple(bs))
+                        elif route == 'zgy':
+                            c_.run(out, bits_per_voxel=rate, blockshape=tuple(bs))
+                        else:
+                            c_.run(out, bits_per_voxel=rate, blockshape=tuple(bs), reduce_iops=route == 'iops', header_detection=case.get('detection', 'heuristic'))
+                    strata_reuse.add('converter-reused')
+                elif route == 'numpy':
                     conv.convert_numpy(src['data'], out, rate, bs, ilines=src['ilines'], xlines=src['xlines'], samples=src['samples'])
                 elif route == 'zgy':
                     conv.convert_zgy(src['path'], out, rate, bs)
@@ -143,7 +176,8 @@ def run_case(case, ctx):
         T = src['traces']
     want = sha(T)
     got = convert_all(src, 'a')
-    strata = {'geom:' + geom, 'where:' + case['where'], 'detection:' + case.get('detection', 'heuristic')}
+    strata = {'geom:' + geom, 'where:' + case['where'], 'detection:' + case.get('detection', 'heuristic'), 'fmt:%s' % case['src'].get('fmt', 5)}
+    strata |= strata_reuse
     if 'pattern' in case:
         strata.add('aligned-axes:%s:%d' % ('2d' if geom == '2d' else '3d', case['pattern']))
     if case.get('window') and geom == '3d' and min(src['data'].shape[:2]) >= 3:
@@ -184,8 +218,11 @@ def run_case(case, ctx):
         t, z = nT - 1, rng.randrange(nZ)
     else:
         t, z = rng.randrange(nT), rng.randrange(nZ)
-    v = T2[t:t + 1, z:z + 1].view(np.uint32)
-    v ^= np.uint32(1 << rng.randrange(0, 23))
+    if case['src'].get('fmt') in (2, 3, 8):
+        T2[t, z] += 1 if T2[t, z] < 100 else -1           # integer formats: the smallest representable change
+    else:
+        v = T2[t:t + 1, z:z + 1].view(np.uint32)
+        v ^= np.uint32(1 << rng.randrange(0, 23))
     if geom == 'numpy':
         src2 = dict(src)
         src2['data'] = T2.reshape(src['data'].shape)
@@ -219,7 +256,7 @@ def run_case(case, ctx):
 
 def finalize(tier, cases, results, counters, strata):
     reasons = []
-    need = ['geom:3d', 'geom:2d', 'geom:irregular', 'geom:numpy', 'geom:zgy', 'where:first', 'where:last', 'where:partial', 'where:random', 'windowed']
+    need = ['converter-reused', 'fmt:1', 'fmt:5', 'fmt:2', 'fmt:3', 'fmt:8', 'geom:3d', 'geom:2d', 'geom:irregular', 'geom:numpy', 'geom:zgy', 'where:first', 'where:last', 'where:partial', 'where:random', 'windowed']
     need += ['detection:' + d for d in ('heuristic', 'strip', 'thorough', 'exhaustive')]
     need += ['aligned-axes:%s:%d' % (g, p) for g in ('3d', '2d') for p in range(8)]
     for s in need:
